@@ -66,7 +66,10 @@ def umeyama_alignment(x: np.ndarray, y: np.ndarray,
 
     # SVD (text betw. eq. 38 and 39)
     u, d, v = np.linalg.svd(cov_xy)
-    if np.count_nonzero(d > np.finfo(d.dtype).eps) < m - 1:
+    # Rank tolerance relative to the largest singular value (like
+    # np.linalg.matrix_rank), but never below the absolute machine epsilon.
+    eps = np.finfo(d.dtype).eps
+    if np.count_nonzero(d > max(eps, d.max() * m * eps)) < m - 1:
         raise GeometryException("Degenerate covariance rank, "
                                 "Umeyama alignment is not possible")
 
